@@ -4,7 +4,7 @@ import SleapVerif.Model.Pipelines
 Driver for C18 (runs the model at `R := Rat`).
 
 `sample <fw> <mt> <isRgb> <maxH> <maxW> <cfgMaxH|-1> <cfgMaxW|-1> <scale> <maxStride> <cropH> <cropW>
-        <anchor|-1> <maxInst> <alias> <singleOne> <cmSigma> <cmStride> <pafSigma> <pafStride> <edges: n (u v)*>
+        <anchor|-1> <maxInst> <alias> <cmSigma> <cmStride> <pafSigma> <pafStride> <edges: n (u v)*>
         <h> <w> <c> <k> <insts: n (m (x y)*)*>`
   → `ok img=<sexpr>;shape=c h w;n=<num>;rank=<r>;inst=<ll>;cen=<l>;bbox=<l>;eff=<q> <q>;tgt=<targets>`
 `count <fw> <mt> <insts>` → `ok <n>` | `raise` (samples a framework yields for one labelled frame).
@@ -71,13 +71,13 @@ def sampleLine : P String := do
   let fw ← tok; let mt ← tok
   let isRgb ← bool; let maxH ← nat; let maxW ← nat; let cH ← onat; let cW ← onat
   let scale ← rat; let ms ← nat; let cropH ← nat; let cropW ← nat; let anchor ← onat
-  let maxInst ← nat; let alias ← bool; let singleOne ← bool
+  let maxInst ← nat; let alias ← bool
   let cmS ← rat; let cmSt ← nat; let pS ← rat; let pSt ← nat; let ed ← edges
   let h ← nat; let w ← nat; let c ← nat; let k ← nat; let ii ← insts
   match fwOf fw, mtOf mt with
   | some fw, some mt =>
     let cfg : Cfg Rat := { mt, isRgb, maxH, maxW, cfgMaxH := cH, cfgMaxW := cW, scale, maxStride := ms,
-                           cropH, cropW, anchor, maxInstances := maxInst, aliasing := alias, singleOne }
+                           cropH, cropW, anchor, maxInstances := maxInst, aliasing := alias }
     let fr : Frame Rat := { h, w, c, insts := ii }
     let hd : Heads Rat := { cmSigma := cmS, cmStride := cmSt, pafSigma := pS, pafStride := pSt, edges := ed }
     let s := sampleOf numRat fw cfg fr k
